@@ -80,3 +80,132 @@ Proof.
   exists (run_ref fe cfg env c e). split; [apply H; exact Hd|apply run_ref_no_machine; exact Hf].
 Qed.
 Print Assumptions C05_no_machine_failure.
+
+(* ------------------------------------------------------------------------------------------
+   The byte level of the compiler (BC/Assemble.v): emit, makeConstant (constant pool with the index
+   map), encode, the 65535 limits of makeConstant / patchJump / calcBackwardJump.
+   assemble / assemble_items turn IR into Bytecode + Constants + Locations; decode inverts them. *)
+Require Import X.BC.Assemble X.BC.AssembleProofs.
+
+(* Whatever is assembled decodes: every opcode is known, every operand is in range and of the kind
+   its instruction expects, and the decoded instructions are the assembled ones - up to a pushed
+   constant being replaced by an earlier constant that Go's index map considers equal (code_sim). *)
+Theorem C05_decode_assemble :
+  forall C p, assemble C = Some p -> exists C', decode p = DOk C' /\ code_sim C C'.
+Proof. exact decode_assemble. Qed.
+Print Assumptions C05_decode_assemble.
+
+(* the same for item lists, i.e. with the constant numbering of the Go compiler *)
+Theorem C05_decode_assemble_items :
+  forall its p, assemble_items its = Some p -> exists C', decode p = DOk C' /\ code_sim (items_code its) C'.
+Proof. exact decode_assemble_items. Qed.
+Print Assumptions C05_decode_assemble_items.
+
+(* decode returns the very code when no constant is a negative float zero ... *)
+Theorem C05_decode_assemble_exact :
+  forall C p, assemble C = Some p -> code_keys_exact C = true -> decode p = DOk C.
+Proof. exact decode_assemble_exact. Qed.
+Print Assumptions C05_decode_assemble_exact.
+
+(* ... and not in general: makeConstant gives -0.0 the pool index of an earlier 0.0 *)
+Theorem C05_decode_assemble_exact_refuted : ~ decode_assemble_exact_full_statement.
+Proof. exact decode_assemble_exact_refuted. Qed.
+Print Assumptions C05_decode_assemble_exact_refuted.
+
+(* The bytes assembled from any compiled expression pass the structural verifier: they decode
+   (operands in range and of the expected kind) and every jump lands on an instruction boundary. *)
+Theorem C05_bytes_wf :
+  forall mapenv c e p, compilable e = true ->
+  assemble (compile_program mapenv c e) = Some p -> wf_progb p = true.
+Proof. exact assemble_compiled_wf. Qed.
+Print Assumptions C05_bytes_wf.
+
+(* compile_bytes = compiler.Compile at byte level (constants numbered in the order of the Go
+   makeConstant calls); erasing the bare makeConstant calls of its input gives the IR compiler *)
+Theorem C05_items_erase_to_compile :
+  forall mapenv c e, items_code (compile_items_program mapenv c e) = compile_program mapenv c e.
+Proof. exact items_code_compile_program. Qed.
+Print Assumptions C05_items_erase_to_compile.
+
+Theorem C05_compile_bytes_decodes :
+  forall mapenv c e p, compile_bytes mapenv c e = Some p ->
+  exists C', decode p = DOk C' /\ code_sim (compile_program mapenv c e) C'.
+Proof. exact compile_bytes_decodes. Qed.
+Print Assumptions C05_compile_bytes_decodes.
+
+Theorem C05_compile_bytes_exact :
+  forall mapenv c e p, compile_bytes mapenv c e = Some p ->
+  items_keys_exact (compile_items_program mapenv c e) = true -> decode p = DOk (compile_program mapenv c e).
+Proof. exact compile_bytes_exact. Qed.
+Print Assumptions C05_compile_bytes_exact.
+
+Theorem C05_compile_bytes_wf :
+  forall mapenv c e p, compile_bytes mapenv c e = Some p -> wf_progb p = true.
+Proof. exact compile_bytes_wf. Qed.
+Print Assumptions C05_compile_bytes_wf.
+
+(* Assembling fails only for the panics of the Go code: a jump offset above 65535, a pool of more
+   than 65535 entries, or an instruction no Go compile emits / a constant makeConstant cannot hash. *)
+Theorem C05_assemble_fails_only_when_too_big :
+  forall C, assemble C = None -> code_fail_reason C.
+Proof. exact assemble_fails_only_when_too_big. Qed.
+Print Assumptions C05_assemble_fails_only_when_too_big.
+
+Theorem C05_assemble_items_fails_iff :
+  forall its, assemble_items its = None <-> asm_fail_reason its [].
+Proof. exact assemble_items_fails_iff. Qed.
+Print Assumptions C05_assemble_items_fails_iff.
+
+Theorem C05_compile_bytes_fails_iff :
+  forall mapenv c e, compile_bytes mapenv c e = None <->
+  compilable e = false \/ asm_fail_reason (compile_items_program mapenv c e) [].
+Proof. exact compile_bytes_fails_iff. Qed.
+Print Assumptions C05_compile_bytes_fails_iff.
+
+(* ---- examples (non-vacuity) ---- *)
+(* c05_ex (BC/Assemble.v): s matches "^a" ? f(1.5, 1, f(1.5, 2, 1)) : filter(1..3, {# > 1}), compiled with AsInt64 *)
+(* the bytes and the pool are those of the Go compiler for this source (pool in makeConstant call
+   order: "count" before the operands of filter, "i" "size" "array" at the head of the loop;
+   1.5, 1 and Call{f,3} are de-duplicated, the regexp is not a key); they decode back to the IR *)
+Example C05_compile_bytes_example :
+  exists p, compile_bytes false CastInt64 c05_ex = Some p /\
+    p_bytes p = [3; 0; 0; 31; 1; 0; 16; 25; 0; 1; 0; 2; 0; 0; 3; 0; 0; 2; 0; 0; 4; 0; 0; 3; 0; 39; 5; 0; 39; 5; 0; 14; 80;
+                 0; 1; 0; 3; 0; 0; 7; 0; 29; 50; 0; 8; 0; 47; 6; 0; 45; 47; 10; 0; 47; 11; 0; 0; 8; 0; 47; 9; 0; 48; 9; 0;
+                 48; 10; 0; 19; 16; 36; 0; 1; 48; 11; 0; 48; 9; 0; 35; 0; 3; 0; 20; 16; 14; 0; 1; 49; 6; 0; 48; 11; 0; 48;
+                 9; 0; 35; 14; 1; 0; 1; 49; 9; 0; 17; 46; 0; 1; 48; 6; 0; 51; 43; 46; 0; 0]%Z /\
+    p_consts p = c05_ex_pool /\
+    items_keys_exact (compile_items_program false CastInt64 c05_ex) = true /\
+    decode p = DOk (compile_program false CastInt64 c05_ex) /\
+    wf_progb p = true.
+Proof. eexists. vm_compute. repeat split; reflexivity. Qed.
+
+(* first-use numbering of the plain IR: same bytes up to the pool permutation, decodes back as well *)
+Example C05_assemble_example :
+  exists p, assemble (compile_program false CastInt64 c05_ex) = Some p /\
+    code_keys_exact (compile_program false CastInt64 c05_ex) = true /\
+    decode p = DOk (compile_program false CastInt64 c05_ex) /\ wf_progb p = true.
+Proof. eexists. vm_compute. repeat split; reflexivity. Qed.
+
+(* c05_big_cond n (BC/Assemble.v): true ? [1, 1, ... n times] : 2 — the branch is 3n + 4 bytes, the
+   conditional jump spans 3n + 8.  Offset 65534: accepted, 65542 bytes, the operand bytes are 254 255 *)
+Example C05_jump_65534_accepted :
+  match compile_bytes false CastNone (c05_big_cond 21842) with
+  | Some p => (Z.of_nat (List.length (p_bytes p)) =? 65542)%Z &&
+              match firstn 4 (p_bytes p) with [6; 16; 254; 255]%Z => true | _ => false end
+  | None => false
+  end = true.
+Proof. vm_compute. reflexivity. Qed.
+
+(* offset 65537: refused (the Go compiler panics "exceeded jump offset limit"), by both assemblers,
+   and the reason is the one the failure theorem names *)
+Example C05_jump_64k_refused :
+  compile_bytes false CastNone (c05_big_cond 21843) = None /\
+  assemble (compile_program false CastNone (c05_big_cond 21843)) = None /\
+  existsb jump_too_far (compile_items_program false CastNone (c05_big_cond 21843)) = true.
+Proof. vm_compute. repeat split; reflexivity. Qed.
+
+(* constants the Go compiler cannot hash: pushing a nil interface or a func value is refused *)
+Example C05_unhashable_refused :
+  assemble [(IPush VNil, noloc)] = None /\ assemble [(IPush (VFunc "f" (TFunc [] false [TBool])), noloc)] = None /\
+  assemble [(ICast 2, noloc)] = None.
+Proof. vm_compute. repeat split; reflexivity. Qed.
